@@ -100,14 +100,14 @@ class Haplotag(BCheck):
                 "and untagged on ties or without phased heterozygous variants; secondary/unmapped alignments are never tagged")
     rule = ("seeded SNV scenarios (1-2 samples/read groups, ploidy 2-4, 1-2 contigs + one contig with only placed-unmapped records, several phase sets with random "
             "haplotype order, secondary/supplementary/duplicate/unmapped records), --no-reference, options --tag-supplementary, --ignore-read-groups (single sample), "
-            "whole-contig --regions, and two regions on one contig (known finding F9); non-trivial = some read is tagged")
+            "whole-contig --regions, two regions on one contig (known finding F9), and linked-read barcodes shared with variant-free reads beyond the distance cutoff on either side; non-trivial = some read is tagged")
     budget_s = {"quick": 150, "thorough": 1500}
     chunk = 4
 
     def inputs(self, tier, rng):
         for i in range(2000 if tier == "quick" else 30000):
             yield dict(seed=rng.getrandbits(48), ploidy=[2, 2, 3, 4][i % 4], tag_supp=(i % 3 == 0), regions=["none", "none", "whole", "two"][i % 4] if i % 5 == 0 else "none",
-                       ignore_rg=(i % 7 == 0))
+                       ignore_rg=(i % 7 == 0), bx=(i % 4 == 1))
 
     def check(self, inp):
         from whatshap.cli.haplotag import run_haplotag
@@ -123,6 +123,34 @@ class Haplotag(BCheck):
         extra = extra_records(r, sc)
         extra.append(dict(name="only_unmapped_on_chrU", sample=sc["samples"][0], contig="chrU", start=10, cigar=[], seq=BAM.rand_seq(r, 25), flag=4, mapq=0))
         vcf_text, phasing = BAM.phased_vcf(sc, r)
+        cutoff = 50000
+        if inp.get("bx"):
+            # linked reads: a barcode shared by a normal read A and a short variant-free read B lying MORE than the linked-read cutoff away from A, on
+            # either side; B has no assignment of its own and no barcode partner within the cutoff, so it must stay untagged
+            cutoff = 5
+            k = 0
+            for c in sc["contigs"]:
+                if not c["variants"]:
+                    continue
+                gaps = []
+                prev = 0
+                for v in c["variants"] + [dict(pos=len(c["seq"]), ref="")]:
+                    if v["pos"] - prev >= 10:
+                        gaps.append((prev + 1, v["pos"] - 1))
+                    prev = v["pos"] + len(v["ref"])
+                for rd in [x for x in sc["reads"] if x["contig"] == c["name"] and x["flag"] == 0][:6]:
+                    far = [(a, b) for a, b in gaps if (b - 8 < rd["start"] - cutoff - 1) or (a > rd["start"] + cutoff + 1)]
+                    if not far or any(t[0] == "BX" for t in rd.get("tags", [])):
+                        continue
+                    a, b = r.choice(far)
+                    start = r.randint(a, b - 8) if b - 8 < rd["start"] - cutoff - 1 else r.randint(max(a, rd["start"] + cutoff + 1), b - 8) if b - 8 >= max(a, rd["start"] + cutoff + 1) else None
+                    if start is None or abs(start - rd["start"]) <= cutoff:
+                        continue
+                    bx = "BX%d" % k
+                    k += 1
+                    rd["tags"] = list(rd.get("tags", [])) + [("BX", bx)]
+                    extra.append(dict(name="bxfar_%d" % k, sample=rd["sample"], contig=c["name"], start=start, cigar=[["M", 8]], seq=c["seq"][start:start + 8], flag=0, mapq=60,
+                                      tags=[("BX", bx)]))
         d = tempfile.mkdtemp(prefix="c10_")
         try:
             paths = BAM.materialize(sc, d, extra_reads=extra)
@@ -137,7 +165,7 @@ class Haplotag(BCheck):
                 regions = ["%s:1-%d" % (c0["name"], mid), "%s:%d-%d" % (c0["name"], mid + 1, len(c0["seq"]))] + [c["name"] for c in sc["contigs"][1:]]
             try:
                 run_haplotag(vcf, paths["bam"], output=out, reference=False, regions=regions, tag_supplementary=inp["tag_supp"],
-                             ignore_read_groups=inp["ignore_rg"], ploidy=ploidy)
+                             ignore_read_groups=inp["ignore_rg"], ploidy=ploidy, linked_read_distance_cutoff=cutoff)
             except Exception as e:
                 import traceback
                 return dict(expected="run_haplotag succeeds", observed="%s: %s" % (type(e).__name__, e), traceback=traceback.format_exc()[-1500:])
@@ -160,6 +188,9 @@ class Haplotag(BCheck):
             for (rec, tags) in b:
                 name, flag = rec[0], rec[1]
                 rd = by_name.get(name)
+                if name.startswith("bxfar_") and tags:
+                    return dict(expected="read %s (no variant of its own, barcode partner farther than the linked-read cutoff %d) stays untagged" % (name, cutoff), observed=str(tags),
+                                clause="linked-read-cutoff")
                 if flag & 4 or flag & 256 or rd is None or (flag & 2048 and not inp["tag_supp"]):
                     if tags:
                         return dict(expected="alignment %s (flag %d) is never tagged" % (name, flag), observed=str(tags), clause="ignored-reads")
